@@ -36,6 +36,7 @@ def _refcomp():
 
 SEQS = {
     "NT_STRICT": [(Alphabet.NT_STRICT, "ACGTacgt")],
+    "NT_STRICT6": [(Alphabet.NT_STRICT, "ACGTac")],
     "NT_STRICT_GAPPED": [(Alphabet.NT_STRICT_GAPPED, "AcGt-aCgT")],
     "NT_STRICT_UNKNOWN": [(Alphabet.NT_STRICT_UNKNOWN, "ANcgTnaCGt")],
     "NT_EXTENDED": [(Alphabet.NT_EXTENDED, "ATUCGNWSMK"), (Alphabet.NT_EXTENDED, "RYBDHVatuc"), (Alphabet.NT_EXTENDED, "gnwsmkrybd"),
@@ -258,7 +259,9 @@ def obligations(tier):
             for strand in (PLUS, MINUS):
                 sn = sname(strand)
                 shapes = [(1, False)]
-                if si == 0 and (not quick or aname in ("NT_STRICT", "NT_EXTENDED")):
+                if aname == "NT_STRICT6":
+                    shapes = [(3, True)]  # 3 blocks incl. overlapping/nested/adjacent on a 6-letter parent
+                elif si == 0 and (not quick or aname in ("NT_STRICT", "NT_EXTENDED")):
                     shapes += [(2, False), (2, True)]
                 if not quick and si == 0 and aname == "NT_STRICT":
                     shapes += [(3, False)]
@@ -273,6 +276,8 @@ def obligations(tier):
                         ex["e%d" % i] = 2 * i + 3
                     if overlapping:
                         ex.update(s1=2, e1=5)
+                    if k == 3:
+                        ex = dict(s0=0, e0=3, s1=2, e1=4, s2=5, e2=6)
                     o = Obl("extract_%s_%d_k%d%s_%s" % (aname, si, k, "ov" if overlapping else "", sn),
                             extract_fn(alpha, genome, k, strand), params, extract_pre(n, k, overlapping), budget=900,
                             cost=[0, 8, 100, 900][k],
@@ -281,10 +286,15 @@ def obligations(tier):
                             bounds="tagged parent %r (%s), every %d-block location%s within [0,%d]" % (
                                 genome, aname, k, " with overlapping blocks" if overlapping else "", n),
                             examples=[ex])
-                    if k >= 2:
+                    if k == 3:
+                        out.extend(split_cubes(o, {"s0lt1": lambda **kw: kw["s0"] < 1, "e0lt3": lambda **kw: kw["e0"] < 3,
+                                                   "s1lt2": lambda **kw: kw["s1"] < 2, "e1lt4": lambda **kw: kw["e1"] < 4}))
+                    elif k >= 2:
                         out.extend(split_cubes(o, {"s0lt1": lambda **kw: kw["s0"] < 1, "e0lt3": lambda **kw: kw["e0"] < 3}))
                     else:
                         out.append(o)
+                if aname == "NT_STRICT6":
+                    continue
                 if si == 0 and (not quick or aname in ("NT_STRICT", "NT_EXTENDED_GAPPED")):
                     for k in (1, 2):
                         params = {}
@@ -309,7 +319,7 @@ def obligations(tier):
                                        desc="reverse_complement of a located sequence: characters reverse-complemented, recorded location on the opposite strand "
                                             "re-extracts them; twice = identity (U~T)", bounds="every %d-block located sequence on %r" % (k, genome),
                                        examples=[ex]))
-            if si == 0 and (not quick or aname == "NT_STRICT"):
+            if si == 0 and aname != "NT_STRICT6" and (not quick or aname == "NT_STRICT"):
                 for s1 in (PLUS, MINUS):
                     for s2 in (PLUS, MINUS):
                         params = {"s0": int, "e0": int, "s1": int, "e1": int}
